@@ -64,26 +64,30 @@ func newWorld(o worldOpts) *world {
 		routes.AddRouteItem(r[0], r[1], r[2])
 	}
 	w.rr = NewRoundRobinBackend()
-	p := &Proxy{myName: NewMyName(o.name),
-		localAddress:         wListenAddr,
-		keepNextHopRoute:     o.keepNextHop,
-		preConfigRoute:       routes,
-		resolver:             resolver,
-		items:                make([]*ProxyItem, 0),
-		clientTransMgr:       NewClientTransportMgr(func(conn fakenet.Conn) {}),
-		selfLearnRoute:       NewSelfLearnRoute(),
-		mustRecordRoute:      o.mustRecordRoute,
-		msgChannel:           make(chan *RawMessage, 100),
-		backendChangeChannel: make(chan *BackendChangeEvent, 100),
-		connAcceptedChannel:  make(chan fakenet.Conn),
-		backends:             make(map[string]*BackendWithParent),
-		dialogBasedBackends:  NewDialogBasedBackend(o.dialogTimeout)}
+	var p *Proxy
+	if !o.holdLoop {
+		// the real constructor (it starts the message loop itself)
+		p = NewProxy(o.name, o.dialogTimeout, wListenAddr, o.keepNextHop, routes, resolver, NewSelfLearnRoute(), true, o.mustRecordRoute)
+	} else {
+		// the same object with its loop not started yet (startLoop does that): messages queue up as under load
+		p = &Proxy{myName: NewMyName(o.name),
+			localAddress:         wListenAddr,
+			keepNextHopRoute:     o.keepNextHop,
+			preConfigRoute:       routes,
+			resolver:             resolver,
+			items:                make([]*ProxyItem, 0),
+			clientTransMgr:       NewClientTransportMgr(func(conn fakenet.Conn) {}),
+			selfLearnRoute:       NewSelfLearnRoute(),
+			mustRecordRoute:      o.mustRecordRoute,
+			msgChannel:           make(chan *RawMessage, 100),
+			backendChangeChannel: make(chan *BackendChangeEvent, 100),
+			connAcceptedChannel:  make(chan fakenet.Conn),
+			backends:             make(map[string]*BackendWithParent),
+			dialogBasedBackends:  NewDialogBasedBackend(o.dialogTimeout)}
+	}
 	item := &ProxyItem{transports: []ServerTransport{w.listener}, backend: w.rr, msgHandler: p}
 	p.AddItem(item)
 	w.p = p
-	if !o.holdLoop {
-		go p.receiveAndProcessMessage()
-	}
 	for i := 0; i < o.nBackends; i++ {
 		b := &vBackend{addr: "10.0.1." + itoa(i+1) + ":5060"}
 		w.bs = append(w.bs, b)
@@ -106,6 +110,7 @@ func (w *world) deliver(text, peerAddr string, peerPort int, receivedSupport boo
 	if err != nil {
 		return false
 	}
+	faketime.Advance(faketime.Millisecond) // time passes between messages
 	w.p.HandleRawMessage(NewRawMessage(peerAddr, peerPort, w.listener, receivedSupport, msg))
 	rt.Quiesce()
 	return true
@@ -119,6 +124,7 @@ func (w *world) deliverTCP(text string, conn *fakenet.TCPConn, peerAddr string, 
 	}
 	raw := NewRawMessage(peerAddr, peerPort, w.listener, receivedSupport, msg)
 	raw.TcpConn = conn
+	faketime.Advance(faketime.Millisecond) // time passes between messages
 	w.p.HandleRawMessage(raw)
 	rt.Quiesce()
 	return true
